@@ -16,6 +16,7 @@ structure SerOK (s : State) (r : State × List ObjId) : Prop where
   pushedNew : ∀ i ∈ r.2, (s.objs i).oid = none ∧ ∃ k, (r.1.objs i).oid = some k ∧ s.nextOid ≤ k ∧ k < r.1.nextOid
   other : ∀ i, (s.objs i).oid = none → i ∉ r.2 → r.1.objs i = s.objs i
   pushedObj : ∀ i ∈ r.2, r.1.objs i = { s.objs i with oid := (r.1.objs i).oid, jar := true }
+  nodup : r.2.Nodup
 
 theorem persistentId_ok (s : State) (acc : State × List ObjId) (h : SerOK s acc) (x : ObjId) :
     SerOK s (persistentId acc x) := by
@@ -72,6 +73,14 @@ theorem persistentId_ok (s : State) (acc : State × List ObjId) (h : SerOK s acc
         rcases hi with hi | hi
         · exact h.pushedObj i hi
         · exact absurd hi hne
+    · rw [List.nodup_append]
+      refine ⟨h.nodup, by simp, ?_⟩
+      intro a ha b hb
+      simp only [List.mem_singleton] at hb
+      subst hb
+      intro hab; subst hab
+      obtain ⟨_, k, h2, _⟩ := h.pushedNew a ha
+      rw [h2] at hx; cases hx
 
 theorem serialize_ok (s : State) (refs : List ObjId) : SerOK s (serialize s refs) := by
   unfold serialize
@@ -296,5 +305,191 @@ theorem Str.cacheSet {P Q s} (h : Str P s) (i k) (hi : (s.objs i).oid = some k)
   · exact h.fresh
   · exact h.inj
   · exact h.addedSorted
+
+
+/-! ### field-by-field description of the pieces of `storeOne` -/
+
+/-- fields that neither `access`, nor `serialize`, nor `storeRec` touch -/
+def books (s : State) := (s.added, s.creating, s.modified, s.d1)
+
+@[simp] theorem access_books (s : State) (i) : books (access s i).1 = books s := by
+  unfold access; dsimp only; repeat' split
+  all_goals rfl
+
+@[simp] theorem serialize_books (s : State) (refs) : books (serialize s refs).1 = books s := by
+  have := (serialize_ok s refs).frame
+  rw [this]; rfl
+
+@[simp] theorem storageStore_books (s : State) (k r) : books (storageStore s k r).1 = books s := by
+  unfold storageStore; dsimp only; repeat' split
+  all_goals rfl
+
+@[simp] theorem storeRec_books (s : State) (i k r) : books (storeRec s i k r).1 = books s := by
+  unfold storeRec; dsimp only; repeat' split
+  all_goals first | rfl | exact storageStore_books s k r
+
+/-- fields that `classify`, `access` and `serialize` do not touch but `storeRec` does -/
+def stores (s : State) := (s.cache, s.sp, s.staged, s.nstores)
+
+@[simp] theorem classify_stores (s : State) (i k) : stores (classify s i k) = stores s := by
+  unfold classify; split <;> rfl
+
+@[simp] theorem access_stores (s : State) (i) : stores (access s i).1 = stores s := by
+  unfold access; dsimp only; repeat' split
+  all_goals rfl
+
+@[simp] theorem serialize_stores (s : State) (refs) : stores (serialize s refs).1 = stores s := by
+  have := (serialize_ok s refs).frame
+  rw [this]; rfl
+
+@[simp] theorem classify_objs (s : State) (i k) : (classify s i k).objs = s.objs := by
+  unfold classify; split <;> rfl
+
+@[simp] theorem classify_cache (s : State) (i k) : (classify s i k).cache = s.cache := by
+  unfold classify; split <;> rfl
+
+@[simp] theorem classify_sp (s : State) (i k) : (classify s i k).sp = s.sp := by
+  unfold classify; split <;> rfl
+
+@[simp] theorem classify_staged (s : State) (i k) : (classify s i k).staged = s.staged := by
+  unfold classify; split <;> rfl
+
+@[simp] theorem classify_d1 (s : State) (i k) : (classify s i k).d1 = s.d1 := by
+  unfold classify; split <;> rfl
+
+@[simp] theorem classify_nextOid (s : State) (i k) : (classify s i k).nextOid = s.nextOid := by
+  unfold classify; split <;> rfl
+
+@[simp] theorem access_nextOid (s : State) (i) : (access s i).1.nextOid = s.nextOid := by
+  unfold access; dsimp only; repeat' split
+  all_goals rfl
+
+@[simp] theorem storageStore_objs (s : State) (k r) : (storageStore s k r).1.objs = s.objs := by
+  unfold storageStore; dsimp only; repeat' split
+  all_goals rfl
+
+@[simp] theorem storageStore_nextOid (s : State) (k r) : (storageStore s k r).1.nextOid = s.nextOid := by
+  unfold storageStore; dsimp only; repeat' split
+  all_goals rfl
+
+@[simp] theorem storageStore_cache (s : State) (k r) : (storageStore s k r).1.cache = s.cache := by
+  unfold storageStore; dsimp only; repeat' split
+  all_goals rfl
+
+@[simp] theorem storageStore_sp (s : State) (k r) : (storageStore s k r).1.sp = s.sp := by
+  unfold storageStore; dsimp only; repeat' split
+  all_goals rfl
+
+@[simp] theorem storeRec_nextOid (s : State) (i k r) : (storeRec s i k r).1.nextOid = s.nextOid := by
+  unfold storeRec; dsimp only; repeat' split
+  all_goals first | rfl | simp
+
+theorem storeRec_cache (s : State) (i k r) (h : (storeRec s i k r).2 = none) :
+    (storeRec s i k r).1.cache = s.cache.set k i := by
+  unfold storeRec at h ⊢; dsimp only at h ⊢
+  repeat' split at h
+  all_goals first | cases h | skip
+  · simp [setO]
+  · simp
+
+theorem storeRec_spSome (s : State) (i k r) : (storeRec s i k r).1.sp.isSome = s.sp.isSome := by
+  unfold storeRec; dsimp only; repeat' split
+  all_goals first | rfl | simp_all [setO]
+
+/-- `storeRec` changes at most the status of the stored object (TmpStore: it becomes up to date) -/
+theorem storeRec_objs (s : State) (i k r) (j) :
+    (storeRec s i k r).1.objs j = s.objs j ∨
+    (j = i ∧ (storeRec s i k r).1.objs j = { s.objs i with status := .uptodate } ∧ s.sp.isSome = true) := by
+  unfold storeRec; dsimp only
+  repeat' split
+  all_goals first | (left; simp; done) | skip
+  rename_i heq
+  simp only [setO, heq]
+  by_cases hj : j = i
+  · right; subst hj; simp
+  · left; simp [hj]
+
+/-- `access` changes at most the accessed object, and only when it was a ghost -/
+theorem access_objs (s : State) (i j) :
+    (access s i).1.objs j = s.objs j ∨
+    (j = i ∧ (s.objs i).status = .ghost ∧ ((access s i).1.objs i).status = .uptodate ∧
+      ((access s i).1.objs i).oid = (s.objs i).oid ∧ ((access s i).1.objs i).jar = (s.objs i).jar) := by
+  by_cases hg : (s.objs i).status = .ghost
+  · unfold access; dsimp only
+    repeat' split
+    all_goals first | (left; rfl) | skip
+    simp only [setO]
+    by_cases hj : j = i
+    · right; subst hj; simp [hg]
+    · left; simp [hj]
+  · left; unfold access; simp [hg]
+
+theorem access_nonghost (s : State) (i) (h : (s.objs i).status ≠ .ghost) : access s i = (s, none) := by
+  unfold access; simp [h]
+
+
+theorem storeRec_str {P Q s} (h : Str P s) (i k r) (hi : (s.objs i).oid = some k)
+    (ha : s.added.get k = none) (hPQ : ∀ j ∈ P, j = i ∨ j ∈ Q)
+    (hok : (storeRec s i k r).2 = none) : Str Q (storeRec s i k r).1 := by
+  unfold storeRec at hok ⊢; dsimp only at hok ⊢
+  split
+  · rename_i t _
+    have h1 := h.cacheSet (Q := Q) i k hi ha hPQ
+    have h2 : Str Q { s with sp := some (t.store k r), cache := s.cache.set k i } :=
+      h1.congr rfl rfl rfl rfl
+    exact h2.setO_same i _ rfl rfl
+  · rename_i hsp
+    rw [hsp] at hok
+    dsimp only at hok
+    split
+    · rename_i e he; rw [he] at hok; cases hok
+    · have h1 : Str P (storageStore s k r).1 := h.congr (by simp) (by simp) (by
+        have := storageStore_books s k r; simp only [books] at this; simp_all) (by simp)
+      have h2 := h1.cacheSet (Q := Q) i k (by simpa using hi) (by
+        have := storageStore_books s k r; simp only [books] at this; simp_all) hPQ
+      simpa using h2
+
+
+/-- the `creating` map of the temporary store is not touched by `_store_objects` -/
+def tmpCr (s : State) : Option (Map Bool) := s.sp.map (·.creating)
+
+@[simp] theorem classify_tmpCr (s : State) (i k) : tmpCr (classify s i k) = tmpCr s := by
+  unfold tmpCr; simp
+
+@[simp] theorem access_tmpCr (s : State) (i) : tmpCr (access s i).1 = tmpCr s := by
+  have := access_stores s i; simp only [stores, Prod.mk.injEq] at this; unfold tmpCr; rw [this.2.1]
+
+@[simp] theorem serialize_tmpCr (s : State) (refs) : tmpCr (serialize s refs).1 = tmpCr s := by
+  have := serialize_stores s refs; simp only [stores, Prod.mk.injEq] at this; unfold tmpCr; rw [this.2.1]
+
+@[simp] theorem storeRec_tmpCr (s : State) (i k r) : tmpCr (storeRec s i k r).1 = tmpCr s := by
+  unfold storeRec tmpCr; dsimp only
+  repeat' split
+  all_goals first | (simp_all [setO, TmpStore.store]; done) | simp
+
+theorem isNewObj_congr {s s' : State} {o o' : Obj} (k) (h1 : tmpCr s' = tmpCr s) (h2 : o'.serial = o.serial) :
+    isNewObj s' o' k = isNewObj s o k := by
+  unfold isNewObj
+  rw [h2]
+  congr 1
+  unfold tmpCr at h1
+  cases hs : s.sp <;> cases hs' : s'.sp <;> simp_all
+
+
+theorem storeRec_fail_objs (s : State) (i k r) (h : (storeRec s i k r).2 ≠ none) :
+    (storeRec s i k r).1.objs = s.objs ∧ (storeRec s i k r).1.cache = s.cache := by
+  unfold storeRec at h ⊢; dsimp only at h ⊢
+  split
+  · rename_i hsp; simp [hsp] at h
+  · split
+    · simp
+    · rename_i hsp _ he; simp [hsp, he] at h
+
+theorem SerOK.objs_of_nil {s : State} {r : State × List ObjId} (h : SerOK s r) (hn : r.2 = []) :
+    r.1.objs = s.objs := by
+  funext j
+  by_cases h1 : (s.objs j).oid = none
+  · exact h.other j h1 (by rw [hn]; simp)
+  · exact h.keep j h1
 
 end Proofs.Conn
